@@ -38,6 +38,8 @@ type Event struct {
 }
 
 type Tracker struct {
+	NoPoison bool  // do not overwrite released objects
+	Poisoned int64 // objects overwritten on release
 	mu       sync.Mutex
 	objs     map[uintptr]*entry
 	events   []Event
@@ -110,6 +112,11 @@ func (t *Tracker) hook(kind string, obj any, acquire bool) bool {
 		t.Releases[kind]++
 		if e.st == free {
 			t.events = append(t.events, Event{What: "double-release", Kind: kind, Obj: fmt.Sprintf("%#x", p), Prev: e.stack, Stack: st})
+		} else if !t.NoPoison {
+			// the releasing owner is done with the object: scribble over the buffers it owns, so that anybody who
+			// still holds a slice into them reads garbage now (and, under -race, is reported by the detector)
+			http2.VerifPoison(obj)
+			t.Poisoned++
 		}
 		e.st = free
 	}
